@@ -446,3 +446,8 @@ def atom(e):
     if e["k"] == "lit" and e["v"]["t"] in ("list", "map", "string", "bytes", "bool", "null", "timestamp", "duration"):
         return s
     return "(" + s + ")"
+
+
+def strip_py_dec(w):
+    """wire value -> abstract without py (for comparing call arguments)"""
+    return strip_py(dec(w))
